@@ -304,6 +304,12 @@ func (s *EMTState) edgeMultiComputeRecordSpecs(raw []RawType, frameIndexOfraw0 F
 	recordSpecs := make([]RecordSpec, 0)
 	if iFirst < maxLookback { // state has been reset
 		iFirst = maxLookback
+		if s.enableZeroThreshold {
+			// The kink model can move a trigger up to one sample earlier; start one sample later
+			// so a full npre samples still precede any trigger (otherwise the record would begin
+			// before the start of the stream).
+			iFirst++
+		}
 		if s.iFirstCheckSentinel {
 			log.Println("reseting edge multi state unexpectedly")
 		}
